@@ -6,6 +6,7 @@ from rules import c03, c09, common
 def rules_for(prog, res):
     cg = callgraph.CallGraph(prog)
     c03.run_a(prog, res, cg, prop="C09", only={"simplify", "usedp"})
+    c03.run_a_functions(prog, res, prop="C09", units=("simplify.c",))
     c09.run_b(prog, res)
     c09.run_c(prog, res)
 
@@ -23,7 +24,8 @@ def run(res, tier, replay=None):
         "equality of results across builds as such; the portable 128-bit arithmetic (numerical).")
     if tier == "thorough":
         common.thorough_mutations(res, "C09", {
-            "C09.a": lambda p, r: c03.run_a(p, r, None, prop="C09", only={"simplify", "usedp"}),
+            "C09.a": lambda p, r: (c03.run_a(p, r, None, prop="C09", only={"simplify", "usedp"}),
+                                   c03.run_a_functions(p, r, prop="C09", units=("simplify.c",))),
             "C09.b": lambda p, r: c09.run_b(p, r),
             "C09.c": lambda p, r: c09.run_c(p, r),
         })
